@@ -299,6 +299,14 @@ func ExecProto(c ProtoCase, bound time.Duration) (*ProtoOutcome, error) {
 	}
 	plans := make([]plan, len(c.Conns))
 	results := make([]connResult, len(c.Conns))
+	duringDone := make(chan struct{})
+	stalled := make(chan struct{}, len(c.Conns))
+	nNoRead := 0
+	for _, cc := range c.Conns {
+		if cc.NoRead {
+			nNoRead++
+		}
+	}
 	var wg sync.WaitGroup
 	for k := range c.Conns {
 		cc := c.Conns[k]
@@ -356,11 +364,19 @@ func ExecProto(c ProtoCase, bound time.Duration) (*ProtoOutcome, error) {
 			segs := Segments(stream, c.Conns[k].Cuts)
 			res := &results[k]
 			if c.Conns[k].NoRead {
-				// the client sends and never reads: give the service a moment to block on its reply, then vanish
+				// the client sends and never reads: the service ends up blocked in a reply write. The client stays
+				// connected in that state until the probe traffic on OTHER connections has been answered, then vanishes.
 				for _, s := range segs {
 					conn.SetWriteDeadline(time.Now().Add(40 * time.Millisecond))
 					if _, err := conn.Write(s); err != nil {
 						break
+					}
+				}
+				stalled <- struct{}{}
+				if c.Probe {
+					select {
+					case <-duringDone:
+					case <-time.After(bound):
 					}
 				}
 				return
@@ -398,8 +414,27 @@ func ExecProto(c ProtoCase, bound time.Duration) (*ProtoOutcome, error) {
 		wg.Add(1)
 		go func() {
 			defer wg.Done()
+			defer close(duringDone)
+			// wait until the never-reading clients (if any) have stalled their connections
+			for i := 0; i < nNoRead; i++ {
+				select {
+				case <-stalled:
+				case <-time.After(bound):
+				}
+			}
 			if err := probeGetInfo(probe, p.cfg, bound); err != nil {
-				duringErr = fmt.Errorf("while the test traffic was running: %v", err)
+				duringErr = fmt.Errorf("while the test traffic was running (%d client(s) stalled without reading): %v", nNoRead, err)
+				return
+			}
+			// a NEW connection must be accepted and served as well
+			fresh, cerr := p.connect()
+			if cerr != nil {
+				duringErr = cerr
+				return
+			}
+			defer fresh.Close()
+			if err := probeGetInfo(fresh, p.cfg, bound); err != nil {
+				duringErr = fmt.Errorf("a new connection opened while the test traffic was running (%d client(s) stalled without reading): %v", nNoRead, err)
 			}
 		}()
 	}
